@@ -450,13 +450,15 @@ _RELATIVE = "relative"  # ./foo, ../foo, ., .., or contains /
 _BARE = "bare"  # everything else (command names, flags, args)
 
 
-def _classify_token(token: str) -> str:
+def _classify_token(token: str, *, is_path: bool = False) -> str:
     """Classify a token into one of the path kinds.
 
     Classification is pure - no side effects, no cwd needed.
     Order matters: earlier checks take precedence.
+    is_path: the token is known to name a file (a redirect target), so it is
+    never a URL: "> /tmp/x://../../etc/passwd" writes /etc/passwd.
     """
-    if "://" in token:
+    if "://" in token and not is_path:
         return _URL
     if token.startswith("$"):
         return _VARIABLE
@@ -487,7 +489,7 @@ def _expand_token(token: str, cwd: Path, *, force_path: bool = False) -> str:
     Returns:
         Expanded token string
     """
-    kind = _classify_token(token)
+    kind = _classify_token(token, is_path=force_path)
     home = Path.home()
     if kind == _URL:
         return token
